@@ -133,3 +133,16 @@ Proof. vm_compute. repeat split; reflexivity. Qed.
 Example e_default_scope : default_okb eG eH (template true false eG eH) = true /\ default_okb eG eH (template false false eG eH) = true /\
   default_okb eH eG (template true true eG eH) = true.
 Proof. vm_compute. repeat split; reflexivity. Qed.
+
+(** non-vacuity of C04_identity_among_raw: with C06's verified enumerator as [enum], on CH3I + NH3 (centre, forwards) the
+    identity is found among the raw matches of the exhaustive strategy *)
+From SK Require Import lib.Mono model.C06_Model lib.C06_Spec proof.C04_Engine.
+Definition ex_S : hostg := substrate false exG exH.
+Definition ex_P : molg := match rule_of true false exG exH with Some (_, l, _) => pattern_of l | None => LG [] [] end.
+Example ex_identity_found :
+  existsb (fun m' => forallb (fun ph => existsb (fun qh => N.eqb (fst ph) (fst qh) && N.eqb (snd ph) (snd qh)) m') (id_map (node_ids ex_P))
+                     && Nat.eqb (length m') (length (node_ids ex_P)))
+          (C06_Model.find (monos_on (tr_host ex_S) (tr_pat ex_P)) (Cfg 0 0 100 true false) (tr_host ex_S) (tr_pat ex_P)) = true
+  /\ forallb (fun p => 0 <=? m_hc (snd p)) (gnodes ex_P) = true
+  /\ (lenN (monos_on (tr_host ex_S) (tr_pat ex_P) (node_ids (tr_host ex_S)) (node_ids (tr_pat ex_P))) <= 100)%N.
+Proof. vm_compute. repeat split; try reflexivity. intros E; discriminate E. Qed.
